@@ -1,6 +1,7 @@
 // C39: SPDY framer (bfe_spdy/frame_read.go, frame_write.go) vs model SpdyFrame.v.
 // ops: [1 hdrs] block write+parse on plain buffers; [2 sid block] raw block parse;
-//      [3 frames] Framer write -> read through real zlib; [4 wire chunks] Framer read of a mutated wire.
+//
+//	[3 frames] Framer write -> read through real zlib; [4 wire chunks] Framer read of a mutated wire.
 package main
 
 import (
@@ -326,10 +327,10 @@ func impl(in hv.Val) hv.Val {
 // ---------- generators ----------
 
 var asciiNames = []string{"accept", "Accept-Encoding", "x-a", "X-Custom-Header", "user-agent", "COOKIE", ":path", ":method",
-	":host", ":scheme", ":version", "content-length", "a", "", "x_y", "b c", "etag", "Via", "x-1", "cache-control"}
-var uniSame = []string{"é", "ß", "å", "中", "xé", "ⱥ", "ȧ"}       // ToLower keeps the byte length
-var uniShrink = []string{"\u0130x", "\u0130", "\u212a", "a\u212a", "\u212b", "\u1e9e", "x\u0130y", "\u00c9", "\u00c5", "\u023a", "x\xff", "\xc3", "a\u023ab"} // É: same length, changes bytes
-var uniGrow = []string{"Ⱥ", "x\xff", "\xc3"}                         // grow: the reader then sees a length >= 2^31
+																									":host", ":scheme", ":version", "content-length", "a", "", "x_y", "b c", "etag", "Via", "x-1", "cache-control"}
+var uniSame = []string{"é", "ß", "å", "中", "xé", "ⱥ", "a\u0307", "Σ", "σς", "Ж", "ж", "\u01c4", "\u01c5", "\u1e9e", "\U00010400", "\U0001e900", "\u2126", "\u13a0", "\uab70", "\ufb00", "\u0130\u0307"} // any rune: the model has the complete unicode.ToLower table
+var uniShrink = []string{"\u0130x", "\u0130", "\u212a", "a\u212a", "\u212b", "\u1e9e", "x\u0130y", "\u00c9", "\u00c5", "\u023a", "x\xff", "\xc3", "a\u023ab"}                                           // É: same length, changes bytes
+var uniGrow = []string{"Ⱥ", "x\xff", "\xc3"}                                                                                                                                                            // grow: the reader then sees a length >= 2^31
 var invalidNames = []string{"Connection", "host", "keep-alive", "Transfer-Encoding", "proxy-connection"}
 
 func pickInt(r *hv.Rng, xs []int) int { return xs[r.Intn(len(xs))] }
@@ -468,6 +469,20 @@ func genBlock(r *hv.Rng) (string, hv.Val) {
 				binary.BigEndian.PutUint32(b[off:], v)
 			}
 		}
+		if r.Chance(1, 8) { // one value around the 4096-byte read chunks, with less data than declared
+			decl := pickInt(r, []int{4096, 4097, 8192, 8193, 12288, 12289})
+			have := pickInt(r, []int{0, 1, 4095, 4096, 4097, 8191, 8192, 8193, decl - 1, decl})
+			if have > decl {
+				have = decl
+			}
+			var bb bytes.Buffer
+			binary.Write(&bb, binary.BigEndian, uint32(1))
+			binary.Write(&bb, binary.BigEndian, uint32(1))
+			bb.WriteByte('v')
+			binary.Write(&bb, binary.BigEndian, uint32(decl))
+			bb.Write(bytes.Repeat([]byte{'q'}, have))
+			return "blk-chunk", hv.L{hv.I(2), hv.I(1), hv.B(bb.Bytes())}
+		}
 		switch r.Intn(10) {
 		case 0:
 		case 1: // count field
@@ -567,7 +582,7 @@ func genFrame(r *hv.Rng, mode int) (hv.Val, string) {
 	case 8:
 		return hv.L{hv.I(7), hv.I(r.Intn(50)), hv.I(r.Intn(3))}, ""
 	case 9:
-		return hv.L{hv.I(9), hv.I(r.Intn(30)), hv.U(uint64(uint32(r.U64()>>uint(33+r.Intn(30)))))}, ""
+		return hv.L{hv.I(9), hv.I(r.Intn(30)), hv.U(uint64(uint32(r.U64() >> uint(33+r.Intn(30)))))}, ""
 	default:
 		return hv.L{hv.I(0), hv.I(sid()), hv.I(r.Intn(2)), hv.B(r.Bytes(r.Intn(30)))}, ""
 	}
